@@ -3,7 +3,6 @@
 package main
 
 import (
-	"time"
 	"bytes"
 	"fmt"
 	"math"
@@ -15,6 +14,7 @@ import (
 	"sort"
 	"strconv"
 	"strings"
+	"time"
 
 	"github.com/google/mtail/internal/runtime/compiler/ast"
 	"github.com/google/mtail/internal/runtime/compiler/checker"
